@@ -20,7 +20,6 @@ On every run, on the REAL code in /repo:
      still shows is reported through ctx.finding with its own key.
 """
 import collections
-import copy
 import os
 import random
 import re
@@ -147,10 +146,10 @@ def corpus_files():
 def run(ctx):
     prepare(ctx)
     rng = ctx.rng
-    npairs = ctx.pick(230, 5000)
-    nmut = ctx.pick(150, 3000)
-    nft = ctx.pick(4000, 60000)
-    neff = ctx.pick(24, 300)
+    npairs = ctx.pick(230, 3000)
+    nmut = ctx.pick(150, 1500)
+    nft = ctx.pick(4000, 40000)
+    neff = ctx.pick(24, 200)
     stats = collections.Counter()
     pres_counts = collections.Counter()
 
@@ -185,6 +184,10 @@ def run(ctx):
         jobs.append({'id': jid, 'v2': G.yaml_text(t, False), 'v3': None})
         mut_stats[name.split('+')[0]] += 1
         i += 1
+    # the non-vacuity example of Props/C18.v goes through the same machinery
+    ex_tree = P.example_tree()
+    meta['example'] = {'kind': 'example', 'op': 'example'}
+    jobs.append({'id': 'example', 'v2': G.yaml_text(ex_tree, False), 'v3': None})
     files = corpus_files()
 
     # raw field type nodes, in chunks
@@ -216,6 +219,10 @@ def run(ctx):
         job = by_id[r['id']]
         for pre, post in r['cap']:
             conv_cases.append((pre, post, r['id']))
+        if meta[r['id']]['kind'] == 'example':
+            if r['v2'] != 'ok' or r['ver2'] != 2:
+                ctx.corr_broken.append('the non-vacuity example of Props/C18.v is not accepted by the real barectf: %s %s' % (r['v2'], r['msg2']))
+            continue
         if meta[r['id']]['kind'] == 'mut':
             stats['mutated:%s:%s' % (meta[r['id']]['op'].split('+')[0], r['v2'])] += 1
             if r['v2'] == 'crash':
@@ -312,6 +319,7 @@ def run(ctx):
     sem_in = [(pre, post, src) for pre, post, src in conv_cases if not isinstance(post, str) and ascii_ok(pre) and ascii_ok(post)]
     codes = run_sem_cases(ctx, [(a, b2) for a, b2, _ in sem_in])
     sem_stats = collections.Counter()
+    corpus_hits = {}
     names = {0: 'v2-reading-undefined', 1: 'equal', 2: 'DIFFERENT', 3: 'v3-reading-undefined', None: 'not-evaluated'}
     sem_bad = 0
     nvalid = 0
@@ -328,14 +336,16 @@ def run(ctx):
             sem_bad += 1
             ctx.notes.append('valid_v2 document whose real conversion reads differently (%s): %r' % (names[base], T.to_plain(pre)))
         # every generated twin-domain document must be valid_v2 (non-vacuity of the theorem on the oracle's domain)
+        if kind == 'example' and code != 11:
+            sem_bad += 1
+            ctx.notes.append('the non-vacuity example is not valid_v2 / does not read equal on the real conversion (code %r)' % (code,))
         if kind == 'pair' and not valid:
             sem_bad += 1
             ctx.notes.append('generated twin-domain document that is not valid_v2: %r' % (T.to_plain(pre),))
         # a corpus document outside valid_v2 whose conversion reads differently is an instance of a refuted class
         if kind == 'corpus' and not valid and base in (2, 3):
             for key in P.refuted_classes(pre):
-                pr = [q for q in P.PROBES if q['key'] == key][0]
-                ctx.finding(key, pr['what'], {'corpus_document': src, 'smallest_repair': pr['repair']})
+                corpus_hits.setdefault(key, []).append(src)
             if not P.refuted_classes(pre):
                 sem_bad += 1
                 ctx.notes.append('corpus document %s reads differently after conversion and is in no known refuted class' % src)
@@ -358,6 +368,23 @@ def run(ctx):
     except OSError:
         proofs_src = ''
     probes_seen = {}
+    regressions = {}
+    for rg in P.REGRESSIONS:
+        tree, tw = rg['make']()
+        text = G.yaml_text(tree, False)
+        r2, r3 = run_doc(text), run_doc(tw)
+        same = r2[0] == 'ok' and r3[0] == 'ok' and not W.first_diff(r2[1], r3[1])
+        regressions[rg['name']] = bool(same)
+        if re.sub(r'\s+', ' ', 'Definition %s : yaml := %s.' % (rg['coq'], T.to_coq(tree))) not in proofs_src:
+            ctx.corr_broken.append('regression document %s of V2Proofs.v is not the document replayed by the harness' % rg['coq'])
+        if not same:
+            ctx.violation('regression of %s (fixed by %s): the barectf 2 document and its barectf 3 twin no longer behave the same '
+                          '(v2: %s / v3: %s)' % (rg['name'], rg['fixed_by'], r2[0], r3[0]),
+                          {'v2_document': text, 'v3_twin': tw, 'v2_outcome': [r2[0], r2[1] if r2[0] != 'ok' else None],
+                           'v3_outcome': [r3[0], r3[1] if r3[0] != 'ok' else None],
+                           'first_differences': W.first_diff(r2[1], r3[1]) if r2[0] == 'ok' and r3[0] == 'ok' else None})
+    if re.sub(r'\s+', ' ', 'Definition ex_valid_doc : yaml := %s.' % T.to_coq(ex_tree)) not in proofs_src:
+        ctx.corr_broken.append('ex_valid_doc of V2Proofs.v is not the example document loaded by the harness')
     for p in P.PROBES:
         tree, tw, check = p['make']()
         text = G.yaml_text(tree, False)
@@ -367,6 +394,7 @@ def run(ctx):
             ctx.corr_broken.append('witness %s of V2Proofs.v is not the document replayed by the harness' % p['coq'])
         if shown:
             ctx.finding(p['key'], p['what'], {'v2_document': text, 'v3_twin': tw, 'observed': detail,
+                                              'documents_of_/repo/tests_in_this_class': corpus_hits.pop(p['key'], []),
                                               'smallest_repair': p['repair'], 'coq_witness': 'BT.Front.V2Proofs.' + p['coq'],
                                               'how_to_replay': 'PYTHONPATH=/repo /venv/bin/python -c "import barectf,io,sys; cfg=barectf.configuration_from_file(io.StringIO(open(sys.argv[1]).read())); print(barectf.CodeGenerator(cfg).generate_metadata_stream().contents)" doc.yaml'})
         else:
@@ -374,6 +402,9 @@ def run(ctx):
             # conversions above decide); say so
             ctx.notes.append('probe %s: deviation not shown by the real code (%r)' % (p['key'], detail))
 
+    for key, srcs in corpus_hits.items():
+        pr = [q for q in P.PROBES if q['key'] == key][0]
+        ctx.finding(key, pr['what'], {'corpus_documents': srcs, 'smallest_repair': pr['repair']})
     ndist = len(set(j['v2'] for j in jobs))
     ctx.cov.update({
         'evaluations': len(results) + len(file_results) + len(ft_results) + cli_n,
@@ -389,7 +420,7 @@ def run(ctx):
         'oracle_pairs_both_rejected_reasons': dict(both_rej_reasons.most_common(8)),
         'oracle_pairs_violations': nviol,
         'oracle_bytes_compared': bytes_compared,
-        'version_api_checked': len(results) * 2 - nmut + len(file_results),
+        'version_api_checked': len(results) * 2 - nmut - 1 + len(file_results),
         'version_api_wrong': ver_bad,
         'version_cli_checked': cli_n,
         'version_cli_wrong': cli_bad,
@@ -412,6 +443,7 @@ def run(ctx):
         'presentation': dict(pres_counts),
         'input_distribution': {k: stats[k] for k in sorted(stats)},
         'refuted_witnesses_replayed': probes_seen,
+        'regression_documents_behave_like_their_twin': regressions,
         'samples': samples,
         'readings': ['v2 trace byte-order = v3 trace-byte-order', 'absent in v2 = absent in the v3 twin (S17: clock `absolute`)',
                      'v2 dynamic array = `length: dynamic` (schemas/config/2/field-type.yaml), not a member name',
